@@ -187,7 +187,7 @@ specs = {
          "per key type (oct, RSA, P-256, Ed25519; more in thorough) private and public: each member absent / null / int / real / bool / array / object / empty / non-base64 / 1 char / truncated / extended / first char flipped (+ random pairs in thorough); 30 non-JWK documents; keys of 11 types and 0-50 elements; 300 (quick) / 3000 (thorough) byte-mutated texts; entry points load/strn/create/fromfile/fromfp with good, bad, NUL-containing and set input", False),
     ])'''),
  "c08": dict(doc="C08 -- JWK import preserves the key and its metadata.",
-   mods=["Jwt.Props.C08"], files=["Jwt/Props/C08.lean"], gen=1,
+   mods=["Jwt.Props.C08"], files=["Jwt/Props/C08.lean", "Jwt/Lemmas/PipelineJwk.lean"], gen=3,
    level="Lean theorems: oct import = base64url-decoding of k (bytes, 8*len bits, private, no error) via the C11 round trip; alg/kid/use as functions of the members; frame theorem: setting any member outside the 17 names the library reads, to any JSON value, leaves the imported item unchanged (all key types); C08_param_map over the generated member-to-parameter table of openssl/jwk-parse.c (n,e,d,p,q,dp,dq,qi / x,y,d / x,d reach the parameters RFC 7518 assigns them, x and y the affine coordinates in that order). Numeric identity of RSA/EC/OKP material goes through EVP_PKEY_fromdata/PEM and is sampled: fresh keys of every type, private and public, minimal and zero-padded EC integers, optional and foreign members; imported PEM compared through an independent OpenSSL caller (EVP_PKEY_eq + cross sign/verify).",
    assume=["PARTIAL: component-wise identity of asymmetric key material is sampled (provider code), not proved"],
    body='''    F.run_suites(ctx, model_ok, deep, [
